@@ -6,6 +6,7 @@ import DaskModel.Lemmas.ReshapeGroupsLemmas
 import DaskModel.Lemmas.ReshapeWalkInv
 import DaskModel.Lemmas.StructuralOpsLemmas
 import DaskModel.Lemmas.StructuralCatLemmas
+import DaskModel.Lemmas.StructuralNdLemmas
 import DaskModel.Generated.ChunkTolerance
 /-!
 # C24 — structural array operations equal NumPy (theorems)
@@ -15,7 +16,7 @@ import DaskModel.Generated.ChunkTolerance
   `shuffle_blocks_den`, `take_den` (+ totality);
 * `reshape`: `expand_tuple_spec`, `contract_tuple_spec`, the two 2-d plans `reshape_merge_den` / `reshape_merge_ones_den`, and the
   general n-d statement `reshape_blocks_den` / `reshape_rechunk_groupsOK` / `reshape_den`;
-* blockwise / key-map plans on 2-d block tables: `transpose_den`, `flip_den`, `rot90_den`, `tril_den`, `triu_den`, `stack_den`,
+* blockwise / key-map plans on 2-d block tables: `transpose_den` (n-d with any permutation: `transpose_nd_den`), `flip_den`, `rot90_den`, `tril_den`, `triu_den`, `stack_den`,
   `broadcast_to_den`, `squeeze_expand_den` (+ `expand_dims_plan`), `concat2d_den`, `block_den`, `tile2d_den`; constant pad `pad_const_den`.
 Not proved (validated against NumPy by harness/props/c24.py): n-d versions of the 2-d / 1-d plans (product structure),
 squeeze (integer indexing: slicing group), block / tile with nested lists (nested `concatenate`), statistics / edge / constant /
@@ -726,5 +727,24 @@ theorem expand_dims_last_plan (n : Nat) (cs : List Nat) (hn : n ≠ 1) :
 example : reshapeRechunk [5] [5, 1] [[2, 3]] = .ok ([some [2, 3]], [some [2, 3], some [1]], [(1, 1), (0, 1)]) :=
   expand_dims_last_plan 5 [2, 3] (by decide)
 example : reshapeRechunk [1] [1, 1] [[1]] = .ok ([some [1]], [some [1], some [1]], [(0, 1), (1, 1)]) := by decide
+
+
+/-- **transpose_nd_den**: `transpose` with any permutation `axes` of any number of axes (`blockwise(np.transpose, axes, a,
+    range(ndim), axes=axes)`: chunk tuples permuted, block `B` of the result = `np.transpose` of block `unperm(B)`): the
+    element at `[idx[a] for a in axes]` of the result is `A[idx]` — NumPy's transpose, for every chunking.
+    (`swapaxes` / `moveaxis` / `.T` / `rot90` hand particular permutations to it.) -/
+theorem transpose_nd_den {α} (chunks : List (List Nat)) (A : List Nat → α) (axes : List Nat) (hp : IsPerm axes)
+    (hn : axes.length = chunks.length) (idx : List Nat) (hl : idx.length = chunks.length)
+    (hin : ∀ k, k < chunks.length → idx.getD k 0 < sum (chunks.getD k [])) :
+    ((NArr.ofFn chunks A).transpose axes).read (permuteBy 0 axes idx) = some (A idx) ∧
+    ((NArr.ofFn chunks A).transpose axes).chunks = permuteBy [] axes chunks := by
+  refine ⟨?_, rfl⟩
+  rw [NArr.transpose_read _ axes hp hn idx hl]
+  exact NArr.read_ofFn chunks A idx hl hin
+
+example : IsPerm [2, 0, 1] := IsPerm_of_isPermB (by decide)
+example : ((NArr.ofFn [[1, 1], [2], [1, 2]] (fun idx => idx)).transpose [2, 0, 1]).read (permuteBy 0 [2, 0, 1] [1, 0, 2])
+    = some [1, 0, 2] := by decide
+example : ((NArr.ofFn [[1, 1], [2], [1, 2]] (fun idx => idx)).transpose [2, 0, 1]).chunks = [[1, 2], [1, 1], [2]] := by decide
 
 end Dask.C24
